@@ -131,7 +131,7 @@ func c22Check(s string) (msg string, accepted bool) {
 	return "", err == nil
 }
 
-const c22Rule = "20-byte addresses (uniform, all-zero, all-FF, 1..19 leading zero bytes, single bit) encoded to base58/hex; single-character substitutions/insertions/deletions/transpositions of the base58 text, whitespace / control / non-alphabet characters added before, after or inside it, leading '1', wrong version byte or wrong checksum with otherwise valid structure, alphabet-only strings of plausible length, empty / 2048 / 2049-character / non-alphabet / non-ASCII strings; hex case, length and character edits; non-trivial = an edge address or any edited / arbitrary string; distinct = different string"
+const c22Rule = "20-byte addresses (uniform, all-zero, all-FF, 1..19 leading zero bytes, single bit) encoded to base58/hex; single-character substitutions/insertions/deletions/transpositions of the base58 text, whitespace / control / non-alphabet characters added before, after or inside it, leading '1', wrong version byte or wrong checksum with otherwise valid structure, alphabet-only strings of plausible length, empty / 2048 / 2049-character / non-alphabet / non-ASCII strings; hex case, length and character edits; held results: sequences of 2-9 addresses (fresh ones and relatives of an earlier one: shared prefix or suffix of 1-19 bytes, one bit or byte changed, reversed, complemented) whose ToBase58/ToHexString strings and parse results are held to the end of the case next to private copies while rejected edits of the held texts are parsed, optionally with joined goroutines, then compared, parsed and encoded again; non-trivial = an edge address, any edited / arbitrary string, or a held sequence with >=2 different addresses; distinct = different string"
 
 func TestC22_RoundTrip(t *testing.T) {
 	ev := harn.For("C22").Rule(c22Rule)
